@@ -245,6 +245,15 @@ func c19Run(c *Ctx, gen string, idx int, k c19Case) bool {
 			}
 			return
 		}
+		endSince := func(from int) bool {
+			ls := mc.Lines()
+			for i := from; i < len(ls); i++ {
+				if ls[i] == "CAP END" {
+					return true
+				}
+			}
+			return false
+		}
 		reqs, ends, auth, _ := capLines()
 		// 1. requested == wanted ∩ advertised
 		reqSet := map[string]int{}
@@ -291,7 +300,14 @@ func c19Run(c *Ctx, gen string, idx int, k c19Case) bool {
 		switch k.Reply {
 		case "nak":
 			for _, rq := range reqs {
+				fromR := mc.NumLines()
 				mc.SendLine(":srv CAP * NAK :" + strings.Join(rq, " "))
+				if !quiesce() {
+					return false, false
+				}
+				if !endSince(fromR) {
+					viol("no-end", fmt.Sprintf("no CAP END in answer to the NAK of request line %q (one of %d)", clipS(strings.Join(rq, " ")), len(reqs)))
+				}
 			}
 		default:
 			for _, rq := range reqs {
@@ -307,11 +323,23 @@ func c19Run(c *Ctx, gen string, idx int, k c19Case) bool {
 						ack = append(ack[1:], ack[0])
 					}
 				}
+				fromR := mc.NumLines()
 				mc.SendLine(":srv CAP * ACK :" + strings.Join(ack, " "))
+				startsSasl := false
 				for _, x := range rq {
 					has[x] = true
 					if x == "sasl" && sc != nil {
 						saslStarted = true
+						startsSasl = true
+					}
+				}
+				if !startsSasl {
+					// every acknowledgement that does not start SASL is answered with CAP END, also the second of two
+					if !quiesce() {
+						return false, false
+					}
+					if !endSince(fromR) {
+						viol("no-end", fmt.Sprintf("no CAP END in answer to the ACK of request line %q (one of %d) that does not start SASL", clipS(strings.Join(rq, " ")), len(reqs)))
 					}
 				}
 			}
@@ -345,6 +373,7 @@ func c19Run(c *Ctx, gen string, idx int, k c19Case) bool {
 			if len(auth) != 2 || auth[1] != wantPayload {
 				viol("sasl-payload", fmt.Sprintf("AUTHENTICATE lines %v, want [%s %s]", auth, mech, wantPayload))
 			}
+			fromO := mc.NumLines()
 			switch k.Outcome {
 			case "903":
 				mc.SendLine(":srv 903 me :SASL authentication successful")
@@ -357,7 +386,7 @@ func c19Run(c *Ctx, gen string, idx int, k c19Case) bool {
 				return false, false
 			}
 			_, ends, _, _ = capLines()
-			if ends < 1 {
+			if ends < 1 || !endSince(fromO) {
 				viol("no-end", fmt.Sprintf("no CAP END after SASL outcome %s", k.Outcome))
 			}
 		} else {
@@ -386,10 +415,14 @@ func c19Run(c *Ctx, gen string, idx int, k c19Case) bool {
 			sort.Strings(names)
 			if len(names) > 0 {
 				off := names[0]
+				fromM := mc.NumLines()
 				mc.SendLine(":srv CAP * ACK :-" + off)
 				has[off] = false
 				if !quiesce() {
 					return false, false
+				}
+				if !endSince(fromM) {
+					viol("no-end", "no CAP END in answer to a later ACK that switches a capability off")
 				}
 			}
 		}
